@@ -456,3 +456,71 @@ Definition io_step (p : pipe) (o : io_op) : pipe :=
                   && ((lenp =? 0)%nat || ((1 <=? length out)%nat && (length out <=? lenp)%nat)) |}
   end.
 Definition io_run (ops : list io_op) : pipe := fold_left io_step ops pipe0.
+
+(* ------------------------------------------------------------------------------------------ *)
+(* Part 3: one conn used full duplex - one goroutine Reads while another one Writes               *)
+(* ------------------------------------------------------------------------------------------ *)
+(* Stream.copyRead = s.recvBuf.read(p) touches the receive side only; Stream.copyWriteAndFlush =
+   s.sendBuf.copyWriteAndFlush(p) touches the send side only: WriteBytes fills s.sendBuf, then Flush RE-READS
+   the field s.sendBuf (Len, done, rootBufOffset, deferred clean) and hands its content to the peer.  The two
+   calls interleave at these steps.  (That copyRead mentions only recvBuf and copyWriteAndFlush / Flush never
+   recvBuf is checked against the current source on every run by the plugin.) *)
+Record duplex := {
+  dx_recv : lbuf;               (* s.recvBuf *)
+  dx_sendbuf : list byte;       (* content of s.sendBuf *)
+  dx_wire : list byte;          (* bytes handed to the peer by Flush, in order *)
+  dx_got : list byte;           (* bytes returned by Read so far *)
+  dx_arrived : list byte;       (* bytes the peer's writes delivered into recvBuf so far *)
+  dx_wpc : option (list byte);  (* a Write is between WriteBytes and the end of Flush: its p *)
+  dx_written : list byte;       (* bytes of the Writes that returned (len p, nil) *)
+  dx_ok : bool }.               (* every Read so far kept the io.Reader contract *)
+
+Inductive dxev :=
+| DxArrive (chunks : list (list byte))   (* event loop: the peer's data appended to recvBuf *)
+| DxRead (lenp : nat)                    (* reader goroutine: Read(p), issued when data is buffered *)
+| DxWriteBytes (p : list byte)           (* writer goroutine: first half of Write(p) *)
+| DxFlush.                               (* writer goroutine: second half: Flush, Write returns (len p, nil) *)
+
+Definition dx0 : duplex :=
+  {| dx_recv := {| slices := []; blen := 0 |}; dx_sendbuf := []; dx_wire := []; dx_got := []; dx_arrived := [];
+     dx_wpc := None; dx_written := []; dx_ok := true |}.
+
+(* swap = false is the code that exists.  swap = true is the VARIANT (not the code) in which a Read that drains
+   the receive buffer swaps s.recvBuf and s.sendBuf (ReleaseReadAndReuse): used only to show that the frame
+   property below is what the contract rests on. *)
+Definition dx_step (swap : bool) (d : duplex) (e : dxev) : duplex :=
+  match e with
+  | DxArrive chunks =>
+    {| dx_recv := {| slices := slices (dx_recv d) ++ chunks; blen := (blen (dx_recv d) + total chunks)%nat |};
+       dx_sendbuf := dx_sendbuf d; dx_wire := dx_wire d; dx_got := dx_got d; dx_arrived := dx_arrived d ++ concat chunks;
+       dx_wpc := dx_wpc d; dx_written := dx_written d; dx_ok := dx_ok d |}
+  | DxRead lenp =>
+    if (blen (dx_recv d) <? 1)%nat || Nat.eqb lenp 0 then d else
+    let '(out, err, b') := lb_read (dx_recv d) lenp (MoreErr RTimeout) in
+    let ok' := dx_ok d && match err with None => true | Some _ => false end
+               && (1 <=? length out)%nat && (length out <=? lenp)%nat in
+    if swap && Nat.eqb (blen b') 0 then
+      (* the drained receive buffer becomes the send buffer and vice versa *)
+      {| dx_recv := {| slices := [dx_sendbuf d]; blen := length (dx_sendbuf d) |};
+         dx_sendbuf := []; dx_wire := dx_wire d; dx_got := dx_got d ++ out; dx_arrived := dx_arrived d;
+         dx_wpc := dx_wpc d; dx_written := dx_written d; dx_ok := ok' |}
+    else
+      {| dx_recv := b'; dx_sendbuf := dx_sendbuf d; dx_wire := dx_wire d; dx_got := dx_got d ++ out;
+         dx_arrived := dx_arrived d; dx_wpc := dx_wpc d; dx_written := dx_written d; dx_ok := ok' |}
+  | DxWriteBytes p =>
+    match dx_wpc d, p with
+    | None, _ :: _ =>
+      {| dx_recv := dx_recv d; dx_sendbuf := dx_sendbuf d ++ p; dx_wire := dx_wire d; dx_got := dx_got d;
+         dx_arrived := dx_arrived d; dx_wpc := Some p; dx_written := dx_written d; dx_ok := dx_ok d |}
+    | _, _ => d
+    end
+  | DxFlush =>
+    match dx_wpc d with
+    | Some p =>
+      {| dx_recv := dx_recv d; dx_sendbuf := []; dx_wire := dx_wire d ++ dx_sendbuf d; dx_got := dx_got d;
+         dx_arrived := dx_arrived d; dx_wpc := None; dx_written := dx_written d ++ p; dx_ok := dx_ok d |}
+    | None => d
+    end
+  end.
+
+Definition dx_run (swap : bool) (evs : list dxev) : duplex := fold_left (dx_step swap) evs dx0.
